@@ -19,6 +19,7 @@ META = {
     "assumptions": ["serde_json::Map iterates in its own (deterministic) member order"],
     "not_decided": ["numeric order of slice indices (C11 arithmetic)"],
 }
+META["explanation"] += " R3 also: the descendant arm expands every input node. R4 also covers the AST builders (selectors as written). R6 slice walks emit the RFC's index sequence in order (region analysis of C11-R6, shared)."
 
 Q = "crate::query::Query"
 M = "crate::parser::model::"
